@@ -20,6 +20,11 @@ Example C16_binds_ok_sound_inhabited :
   binds_ok ex_schema ex_sig = true /\ conforms ex_schema (mkC 2 ["dtype"]).
 Proof. exact (conj ex_binds_ok ex_conforms). Qed.
 
+Theorem C16_traced_never_drops : forall f c b, f_traced f = true -> bind f c = OK b ->
+  b_dropped_pos b = [] /\ b_dropped_kw b = [].
+Proof. exact traced_never_drops. Qed.
+Print Assumptions C16_traced_never_drops.
+
 (* Python's own call binding (TracedOnnxFunction.__call__) succeeds exactly when the signature binder succeeds
    with nothing dropped, and then gives the same binding. *)
 Theorem C16_python_call_vs_signature : forall ps c b,
@@ -84,11 +89,8 @@ Theorem C16_mean_dtype_refuted : exists c b, conforms mean_schema c /\ bind mean
 Proof. exact mean_refuted. Qed.
 Print Assumptions C16_mean_dtype_refuted.
 
-(* a droppable keyword that the function does not take is dropped by the signature binder (the entry binds);
-   the same call put to Python's call binding raises *)
-Theorem C16_rand_like_drops_memory_format :
-  binds_ok rand_like_schema rand_like_sig = true /\
-  exists c b, conforms rand_like_schema c /\ bind rand_like_sig c = OK b /\ b_dropped_kw b = ["memory_format"] /\
-              bind_python (f_params rand_like_sig) c = Err (UnexpectedKeyword "memory_format").
-Proof. exact rand_like_drops_memory_format. Qed.
-Print Assumptions C16_rand_like_drops_memory_format.
+Theorem C16_rand_like_refuted : exists c, conforms rand_like_schema c /\
+  bind rand_like_sig c = Err (UnexpectedKeyword "memory_format") /\
+  exists b, bind_signature (f_params rand_like_sig) c = OK b /\ b_dropped_kw b = ["memory_format"].
+Proof. exact rand_like_refuted. Qed.
+Print Assumptions C16_rand_like_refuted.
